@@ -35,6 +35,9 @@ def sh(cmd, timeout=600, cwd=None, env=None, stdin=None):
     """run, return (rc, stdout+stderr) with the conda warning line removed; rc 124 on timeout"""
     e = dict(os.environ)
     e.update({'PYTHONHASHSEED': '0', 'PYTHONPATH': REPO, 'NIMA_REPO': REPO, 'PYTHONDONTWRITEBYTECODE': '1'})
+    covdir = os.environ.get('VERIF_COVERAGE')        # maintenance only (tools/coverage_probe.sh): which source lines do the suites and searches execute
+    if covdir and cmd and cmd[0] == PY and len(cmd) > 1 and cmd[1].endswith('.py'):
+        cmd = [PY, '-W', 'ignore', '-m', 'coverage', 'run', '--parallel-mode', '--branch', '--data-file=' + os.path.join(covdir, '.coverage'), '--source=' + os.path.join(REPO, 'nix_manipulator')] + cmd[1:]
     if env:
         e.update(env)
     try:
